@@ -327,6 +327,8 @@ func c06EndToEnd(c *run.Ctx, r *rand.Rand) {
 			out = append(out, pre+dparts[0]+"."+parts[1])                             // foreign random part + stored signature
 			out = append(out, pre+b64u.EncodeToString(make([]byte, 32))+"."+parts[1]) // zero random part
 			out = append(out, pre+"AAAA."+parts[1], pre+"."+parts[1])
+			// random parts that are not even well-formed base64url: one character, a length of 4n+1, characters outside the alphabet, padding
+			out = append(out, pre+"A."+parts[1], pre+parts[0][:41]+"."+parts[1], pre+"!!"+parts[0][2:]+"."+parts[1], pre+parts[0][:40]+"=="+"."+parts[1], pre+parts[0]+"\x00."+parts[1])
 			out = append(out, "ory_xx_"+dparts[0]+"."+parts[1])
 			return out
 		}
